@@ -197,6 +197,37 @@ def random_history(rnd, S):
     return ev
 
 
+def lost_frame_check():
+    """join of a fast and a slow branch: the fast one has delivered frame n (and, having credit, already published n+1) when recv() times out and is retried;
+    frame n must still be handed out once the slow branch delivers it"""
+    Z = load()
+    obs = []
+    for fast in (0, 1):
+        slow = 1 - fast
+        r, subs = make_receiver(Z, ('all', 'all'), (0, 0), False)
+        pubs = [Pub(k) for k in range(2)]
+
+        def deliver(k):
+            while pubs[k].queue:
+                subs[k].feed(pubs[k].queue.pop(0))
+        got = []
+        for k in (0, 1):
+            pubs[k].publish(0, pubs[k].topics(0))
+            deliver(k)
+        res = r.recv(timeout=0)
+        got.append(res[1].msg_id if res else None)
+        pubs[fast].publish(1, pubs[fast].topics(1)); deliver(fast)
+        got.append((r.recv(timeout=0) or [None, None])[1])                  # times out: the slow branch has not delivered frame 1
+        pubs[fast].publish(2, pubs[fast].topics(2)); deliver(fast)          # the fast branch runs ahead (it had credit)
+        got.append((r.recv(timeout=0) or [None, None])[1])                  # retried, still waiting for the slow branch
+        pubs[slow].publish(1, pubs[slow].topics(1)); deliver(slow)
+        res = r.recv(timeout=0)
+        ids = [got[0], res[1].msg_id if res else None]
+        if ids != [0, 1]:
+            obs.append(f'fast branch = source {fast}: the join handed out ids {ids} (frame 1 of both branches was delivered to it; it must come out before anything newer)')
+    return obs
+
+
 def search(modes, ephs, balance, n_random=3000, seed=0):
     for ev in list(scripted(modes, ephs, balance)) + (list(scripted_held(len(modes))) if not balance and not any(ephs) else []) + (list(scripted_close(len(modes))) if not any(ephs) else []):
         bad, log = run_history(modes, ephs, balance, ev)
